@@ -8,6 +8,7 @@ import (
 	"github.com/GuanceCloud/platypus/internal/verifsim/c14"
 	"github.com/GuanceCloud/platypus/internal/verifsim/c15"
 	"github.com/GuanceCloud/platypus/internal/verifsim/c16"
+	"github.com/GuanceCloud/platypus/internal/verifsim/c20"
 	"github.com/GuanceCloud/platypus/internal/verifsim/core"
 )
 
@@ -18,4 +19,5 @@ func init() {
 	core.Register(c14.Prop{})
 	core.Register(c15.Prop{})
 	core.Register(c16.Prop{})
+	core.Register(c20.Prop{})
 }
